@@ -548,10 +548,11 @@ posit8_1_t posit8_1_reciprocate(posit8_1_t rhs) {
 }
 
 // posit - posit binary logic functions
+// posits are ordered as two's complement signed integers: compare the encodings as int8_t, not as the unsigned storage type
 bool posit8_1_equal(posit8_1_t lhs, posit8_1_t rhs)          { return lhs.v == rhs.v;  }
 bool posit8_1_notEqual(posit8_1_t lhs, posit8_1_t rhs)       { return lhs.v != rhs.v;  }
-bool posit8_1_lessThan(posit8_1_t lhs, posit8_1_t rhs)       { return lhs.v < rhs.v; }
-bool posit8_1_greaterThan(posit8_1_t lhs, posit8_1_t rhs)    { return lhs.v > rhs.v;  }
-bool posit8_1_lessOrEqual(posit8_1_t lhs, posit8_1_t rhs)    { return lhs.v <= rhs.v; }
-bool posit8_1_greaterOrEqual(posit8_1_t lhs, posit8_1_t rhs) { return lhs.v >= rhs.v; }
+bool posit8_1_lessThan(posit8_1_t lhs, posit8_1_t rhs)       { return (int8_t)lhs.v < (int8_t)rhs.v; }
+bool posit8_1_greaterThan(posit8_1_t lhs, posit8_1_t rhs)    { return (int8_t)lhs.v > (int8_t)rhs.v;  }
+bool posit8_1_lessOrEqual(posit8_1_t lhs, posit8_1_t rhs)    { return (int8_t)lhs.v <= (int8_t)rhs.v; }
+bool posit8_1_greaterOrEqual(posit8_1_t lhs, posit8_1_t rhs) { return (int8_t)lhs.v >= (int8_t)rhs.v; }
 
